@@ -31,12 +31,32 @@ RULE = ("A case is one execution of a seeded history over one worklist object an
 COMPONENTS = {"real": ["robotools BaseWorklist.save/__enter__/__exit__/__str__ and all record emitters",
                        "CPython io/pathlib", "kernel file system (tmpfs scratch dir)"],
               "stub": ["user script (seeded generator)"]}
-ASSUMPTIONS = ["OS-level I/O errors are not injected (the statement is silent about them)",
+ASSUMPTIONS = ["the only OS-level I/O error injected is a full disk (RLIMIT_FSIZE: short write, then EFBIG); after it nothing is claimed about the file, only that save()/__exit__ did not return as if it had succeeded",
                "record alphabet: printable Latin-1, tab, and the chr(48)..chr(175) range of EVO well selections (no CR/LF inside a record)"]
 
 TEXTS = ["hello", "µL of Müller's buffer", "ÿ±½ end", "  padded  ", "a\nb\n\nc", "x" * 60, "tab\there", "semi-colon free", "€ not latin-1"]
 GOOD_NAMES = ["out.gwl", "OUT.GWL", "my worklist.gwl", "a.b.gwl", "second.Gwl", "µ.gwl", "sub dir/in dir.gwl"]
 BAD_NAMES = ["out.txt", "worklist", "gwl", "out.gw", "out.csv", "plate7.gwl.d/notes.txt", "run.GWL/out"]
+
+
+class FileSizeLimit:
+    """disk-full seam: RLIMIT_FSIZE for the duration of one save - the kernel then cuts the write short at n bytes
+    and fails it with EFBIG (CPython ignores SIGXFSZ), whatever API the implementation writes through. Nothing
+    else may write to a regular file inside the window (no printing, no logging by the harness)."""
+
+    def __init__(self, n):
+        self.n = n
+
+    def __enter__(self):
+        import resource
+        self.old = resource.getrlimit(resource.RLIMIT_FSIZE)
+        resource.setrlimit(resource.RLIMIT_FSIZE, (self.n, self.old[1]))
+        return self
+
+    def __exit__(self, *a):
+        import resource
+        resource.setrlimit(resource.RLIMIT_FSIZE, self.old)
+        return False
 
 
 def expected_bytes(records):
@@ -51,7 +71,9 @@ class Exec(ExecBase):
         self.fault_fired = False
         self.prestate_overwritten = False
         self.save_lines = {}  # op path (tuple) -> number of robotools line events inside save/exit
+        self.save_sizes = {}  # op path (tuple) -> number of bytes the save has to write
         self.outcomes = []
+        self.disk_full = 0
 
 
 def dir_state(scratch, own_names=None):
@@ -171,8 +193,17 @@ def execute(spec, count_lines=False):
             if kind in ("rel", "relPath"):
                 os.chdir(scratch)
             try:
+                need = len(expected_bytes(recs_before))
+            except UnicodeEncodeError:
+                need = None
+            res.save_sizes[key] = need
+            fsize = op.get("fsize")
+            try:
                 if injector:
                     with injector:
+                        wl.save(path_of(name, kind))
+                elif fsize is not None:
+                    with FileSizeLimit(fsize):
                         wl.save(path_of(name, kind))
                 else:
                     wl.save(path_of(name, kind))
@@ -184,6 +215,14 @@ def execute(spec, count_lines=False):
                 os.chdir(cwd)
             if injector:
                 res.save_lines[key] = injector.count
+            if fsize is not None and exc is not None and need is not None and fsize < need and op.get("expect") != "refuse":
+                # the disk was full: the save said so. Nothing is claimed about the file it leaves behind.
+                res.fault_fired = True
+                res.disk_full += 1
+                known[name] = None
+                res.outcomes.append("diskfull")
+                check_frame(i, op, {name})
+                return
             recs = [str(r) for r in wl]
             if recs != recs_before:
                 fail("C17.save_mutates", i, op, "ok", "save() changed the record list")
@@ -244,6 +283,20 @@ def execute(spec, count_lines=False):
                     inj_exit = op.get("inject_exit")
                     injector = LineInjector(inj_exit["k"] if inj_exit else None, (inj_exit or {}).get("exc", "interrupt"),
                                             only_files="worklists/base.py") if (inj_exit or count_lines) else None
+                    fsize_exit = op.get("fsize_exit")
+                    limit = None
+                    diskfull_exit = False
+
+                    def arm():
+                        nonlocal limit
+                        try:
+                            res.save_sizes[(i, "exit")] = len(expected_bytes([str(r) for r in wl]))
+                        except UnicodeEncodeError:
+                            res.save_sizes[(i, "exit")] = None
+                        if fsize_exit is not None:
+                            limit = FileSizeLimit(fsize_exit)
+                            limit.__enter__()
+
                     try:
                         with wl:
                             entered_len = len(wl)
@@ -256,18 +309,28 @@ def execute(spec, count_lines=False):
                                 if not out.ok:
                                     body_failed = out
                                     raised = out.exc
+                                    arm()
                                     if injector:
                                         injector.__enter__()
                                     raise out.exc
+                            arm()
                             if injector:
                                 injector.__enter__()
                     except BaseException as e:  # noqa
+                        if limit is not None:
+                            limit.__exit__(None, None, None)
+                            limit = None
                         if isinstance(e, (SystemExit, GeneratorExit)):
                             raise
                         if injector:
                             injector.__exit__(None, None, None)
                         if raised is None or e is not raised:
-                            if injector is not None and injector.fired:
+                            need = res.save_sizes.get((i, "exit"))
+                            if fsize_exit is not None and need is not None and fsize_exit < need:
+                                # the disk was full when the block was left: the failure to save is reported
+                                diskfull_exit = True
+                                raised = e
+                            elif injector is not None and injector.fired:
                                 raised = e
                             elif isinstance(e, (InjectedInterrupt, InjectedError)):
                                 raised = e
@@ -275,6 +338,9 @@ def execute(spec, count_lines=False):
                                 fail("C17.exit_raises", i, op, classify(rt, e), f"leaving the with block raised {type(e).__name__}")
                                 raised = e
                     else:
+                        if limit is not None:
+                            limit.__exit__(None, None, None)
+                            limit = None
                         if injector:
                             injector.__exit__(None, None, None)
                         if body_failed is not None:
@@ -286,7 +352,12 @@ def execute(spec, count_lines=False):
                     fired_exit = injector is not None and injector.fired
                     if entered_len != 0:
                         fail("C17.enter_clears", i, op, "ok", f"the worklist held {entered_len} records right after entering the with block")
-                    if fired_exit:
+                    if diskfull_exit:
+                        res.fault_fired = True
+                        res.disk_full += 1
+                        known[target] = None
+                        res.outcomes.append("diskfull@exit")
+                    elif fired_exit:
                         res.fault_fired = True
                         known[target] = None
                         res.outcomes.append("injected@exit")
@@ -477,6 +548,39 @@ def variants_with_save_faults(spec, res):
     return out
 
 
+def variants_with_disk_full(spec, res, rng, per_site=2):
+    """every save / with-exit of the program once more with the disk filling up after L bytes (L below what the
+    save has to write: 0, 1, half, all but one byte), followed by a recovery save with the disk usable again."""
+    import copy
+
+    out = []
+    for key, need in sorted(res.save_sizes.items(), key=lambda kv: str(kv[0])):
+        if not need:
+            continue
+        cands = sorted({0, 1, need // 2, need - 1} & set(range(need)))
+        for L in (cands if per_site is None else rng.sample(cands, min(per_site, len(cands)))):
+            s = copy.deepcopy(spec)
+            i = key[0]
+            if len(key) == 1:
+                op = s["ops"][i]
+                if op.get("expect") == "refuse":
+                    continue
+                op["fsize"] = L
+                rec = {"op": "save", "file": op["file"], "path_kind": op.get("path_kind", "str")}
+            elif key[1] == "exit":
+                s["ops"][i]["fsize_exit"] = L
+                rec = {"op": "save", "file": s["world"]["worklist"]["file"], "path_kind": "str"}
+            else:
+                op = s["ops"][i]["body"][key[1]]
+                if op.get("expect") == "refuse":
+                    continue
+                op["fsize"] = L
+                rec = {"op": "save", "file": op["file"], "path_kind": "str"}
+            s["ops"].insert(i + 1, rec)
+            out.append(s)
+    return out
+
+
 def account(stats, spec, res, label):
     stats.evaluations += 1
     pre = res.prestate_overwritten
@@ -510,6 +614,19 @@ def explore(rng, tier, stats):
             r2 = execute(s)
             stats.crash_points += 1
             account(stats, s, r2, "interrupt.save")
+            if r2.violations:
+                viols.extend(r2.violations)
+                break
+    if not viols:
+        vs = variants_with_disk_full(spec, res, rng, per_site=None if tier == "thorough" else 1)
+        if tier == "quick" and len(vs) > 6:
+            vs = rng.sample(vs, 6)
+        for s in vs:
+            r2 = execute(s)
+            stats.crash_points += 1
+            account(stats, s, r2, "disk.full")
+            if r2.disk_full:
+                stats.probes["disk_full_reported_by_save"] += r2.disk_full
             if r2.violations:
                 viols.extend(r2.violations)
                 break
